@@ -1281,7 +1281,17 @@ class ElectrumX(SessionBase):
         hashX = scripthash_to_hashX(scripthash)
         return self.unsubscribe_hashX(hashX) is not None
 
-    async def _merkle_proof(self, cp_height, height):
+    async def _merkle_proof(self, cp_height, height, raw_header):
+        '''Return a merkle proof, up to cp_height, of raw_header - the header the caller read at
+        the given height - as a dictionary.  Return None if the proof is not one of raw_header.
+
+        The header was read before the proof is computed.  A chain reorganisation in between
+        leaves the caller with an orphaned header and the branch and root of the new chain: a
+        reply that verifies against no chain.  So fold the branch over the header's hash, as the
+        client will, and have the caller read again if that does not give the root.  Comparing
+        with a second read of the header instead would miss a reorganisation back to the first
+        chain.
+        '''
         max_height = self.db.state.height
         if not height <= cp_height <= max_height:
             raise RPCError(BAD_REQUEST,
@@ -1290,6 +1300,9 @@ class ElectrumX(SessionBase):
                            f'chain height {max_height:,d}')
         branch, root = await self.db.header_branch_and_root(cp_height + 1,
                                                             height)
+        header_hash = self.coin.header_hash(raw_header)
+        if self.db.merkle.root_from_proof(header_hash, branch, height) != root:
+            return None
         return {
             'branch': [hash_to_hex_str(elt) for elt in branch],
             'root': hash_to_hex_str(root),
@@ -1300,13 +1313,14 @@ class ElectrumX(SessionBase):
         dictionary with a merkle proof.'''
         height = non_negative_integer(height)
         cp_height = non_negative_integer(cp_height)
-        raw_header_hex = (await self.session_mgr.raw_header(height)).hex()
-        self.bump_cost(1.25 - (cp_height == 0))
-        if cp_height == 0:
-            return raw_header_hex
-        result = {'header': raw_header_hex}
-        result.update(await self._merkle_proof(cp_height, height))
-        return result
+        while True:
+            raw_header = await self.session_mgr.raw_header(height)
+            self.bump_cost(1.25 - (cp_height == 0))
+            if cp_height == 0:
+                return raw_header.hex()
+            proof = await self._merkle_proof(cp_height, height, raw_header)
+            if proof is not None:
+                return {'header': raw_header.hex(), **proof}
 
     async def block_headers(self, start_height, count, cp_height=0):
         '''Return count concatenated block headers as hex for the main chain;
@@ -1320,16 +1334,21 @@ class ElectrumX(SessionBase):
         cp_height = non_negative_integer(cp_height)
 
         max_size = self.MAX_CHUNK_SIZE
-        count = min(count, max_size)
-        cost = count / 50
-        headers, count = await self.db.read_headers(start_height, count)
-        result = {'hex': headers.hex(), 'count': count, 'max': max_size}
-        if count and cp_height:
-            cost += 1.0
-            last_height = start_height + count - 1
-            result.update(await self._merkle_proof(cp_height, last_height))
-        self.bump_cost(cost)
-        return result
+        max_count = min(count, max_size)
+        while True:
+            cost = max_count / 50
+            headers, count = await self.db.read_headers(start_height, max_count)
+            result = {'hex': headers.hex(), 'count': count, 'max': max_size}
+            if count and cp_height:
+                cost += 1.0
+                last_height = start_height + count - 1
+                # The proof is of the last header; the others are linked to it by their hashes
+                proof = await self._merkle_proof(cp_height, last_height, headers[-80:])
+                if proof is None:
+                    continue
+                result.update(proof)
+            self.bump_cost(cost)
+            return result
 
     def is_tor(self):
         '''Try to detect if the connection is to a tor hidden service we are
